@@ -655,6 +655,7 @@ assume pure func (v reflect.Value) String() string
 assume pure func (v reflect.Value) Bytes() []byte
 
 assume pure func reflect.TypeOf(x interface{}) (t reflect.Type)
+  ensures isnil(t) <==> isnil(x)
   ensures t == safeWrapperType <==> hasType(x, "redact.safeWrapper")
   ensures t == unsafeWrapperType <==> hasType(x, "redact.unsafeWrap")
 
@@ -856,6 +857,10 @@ func (p *pp) doPrintf(format string, a []interface{})
   ghost gfsh = p.fmt.sharp before "verb, size := rune(format[i]), 1"
   ghost gfpl = p.fmt.plus before "verb, size := rune(format[i]), 1"
   assert [C15,C14] (verb == 118 || verb == 119) ==> p.fmt.sharpV == gfsh && p.fmt.plusV == gfpl && !p.fmt.sharp && !p.fmt.plus before "p.printArg(a[argNum], verb)"
+  -- "-" wins over "0" whatever the order of the two flags (and a negative * width counts as "-"): the operand, and a
+  -- Formatter that reads the flags back through fmt.State, never see both
+  assert [C05,C14] !(p.fmt.minus && p.fmt.zero) before "p.printArg(a[argNum], rune(c))"
+  assert [C05,C14] !(p.fmt.minus && p.fmt.zero) before "p.printArg(a[argNum], verb)"
   ghost p.gnw = c == 119 ? p.gnw + 1 : p.gnw before "p.printArg(a[argNum], rune(c))"
   ghost p.ggood = (c == 119 && p.gnw == 1) ? (p.wrapErrs && !isnil(p.wrappedErr)) : p.ggood after "p.printArg(a[argNum], rune(c))"
   ghost p.gerr = (c == 119 && p.gnw == 1) ? p.wrappedErr : p.gerr after "p.printArg(a[argNum], rune(c))"
@@ -874,6 +879,7 @@ func (p *pp) doPrintf(format string, a []interface{})
   loop 2 invariant Lp(p) && 0 <= i && i <= end && end == len(format) && 0 <= argNum && lasti <= i
   loop 2 invariant [C15,C05] WInv(p) && p.gw0 == old(p.gw0)
   loop 3 invariant Lp(p) && 0 <= i && i <= end && end == len(format) && 0 <= argNum && !p.fmt.sharpV && !p.fmt.plusV
+  loop 3 invariant [C05,C14] !(p.fmt.minus && p.fmt.zero)
   loop 3 invariant [C15,C05] WInv(p) && p.gw0 == old(p.gw0)
   loop 4 invariant Lp(p)
   loop 4 invariant [C15,C05] WInv(p) && p.gw0 == old(p.gw0)
